@@ -1,782 +1,36 @@
-import LenaModel.Model.C19
+import LenaModel.Lemmas.C19
+/-! # C19 — output files always match the current data and nothing unchanged is redone
+
+Theorems about the model `LenaModel/Model/C19.lean` (lemmas and the definitions of `FUnit`, `UnitInv`,
+`SourceClosed`, `UnitFresh`, `PlotFresh`, `ClockInv`, `effective` are in `LenaModel/Lemmas/C19.lean`).
+
+The sentences of the property and where they are formalised:
+
+* "after each run every file named by a yielded value exists at output_directory/dirname/filename.fileext with
+  exactly the content produced from the current data, and every derived artefact has been regenerated if anything
+  it was rendered from was rewritten or if it was missing" — `run_fresh_partial`, `history_fresh_partial`
+  (separate plots), `grpCore_fresh`, `group_fresh_partial` (a group), `write_path_rule`, `write_file_at_path`;
+  proved under the hypothesis `SourceClosed` (every existing pdf has its `.tex` and CSV files on disk when the
+  run starts).  The statements without that hypothesis are kept as `run_fresh_full`, `history_fresh_full` and
+  are **false** for the code as it is: `run_fresh_full_fails`, `history_fresh_full_fails` (the known finding;
+  `writeCore_created_leaves_changed` is its mechanism).
+* "context.output.changed is true whenever a file's content changed and stays true downstream" —
+  `writeCore_changed_content`, `writeCore_sticky`, `changed_sticky`, `changed_sticky_plot`,
+  `group_changed_sticky`, `group_changed_after_mapgroup`, `groupPlotsChanged_iff`, `combineChanged_spec`.
+* "a run whose inputs are unchanged rewrites no file and launches no converter" — `idle_run_is_noop`,
+  `settled_run_is_noop`.
+* "MakeFilename never replaces an existing name unless overwrite is set while prefix and suffix are applied
+  exactly once" — `makefilename_keeps_existing`, `makefilename_prefix_suffix_once`,
+  `makefilename_second_has_no_prefix`, `makefilename_prefix_accumulates`, `makefilename_init_rules`.
+
+All theorems quantify over arbitrary content types and converters (`Conv C`), all worlds satisfying the stated
+invariant, all data, templates, numbers of plots and option settings; none is bounded. -/
+
 namespace Lena.C19
 set_option linter.unusedSectionVars false
 set_option linter.unusedSimpArgs false
--- file names are opaque in the proofs (only equality of names matters)
 attribute [local irreducible] pdfPathOf pngPathOf
 variable {C : Type} [DecidableEq C]
-
-@[simp] theorem FS.set_eq (fs : FS C) (p : String) (f : File C) : (fs.set p f) p = some f := by simp [FS.set]
-theorem FS.set_ne (fs : FS C) {p q : String} (f : File C) (h : q ≠ p) : (fs.set p f) q = fs q := by simp [FS.set, h]
-
-@[simp] theorem put_fs_eq (w : World C) (p : String) (c : C) (e : Event) : (w.put p c e).fs p = some ⟨c, w.clock⟩ := by
-  simp [World.put]
-theorem put_fs_ne (w : World C) {p q : String} (c : C) (e : Event) (h : q ≠ p) : (w.put p c e).fs q = w.fs q := by
-  simp [World.put, FS.set, h]
-@[simp] theorem put_clock (w : World C) (p : String) (c : C) (e : Event) : (w.put p c e).clock = w.clock + 1 := rfl
-@[simp] theorem note_fs (w : World C) (e : Event) : (w.note e).fs = w.fs := rfl
-@[simp] theorem note_clock (w : World C) (e : Event) : (w.note e).clock = w.clock := rfl
-
-/-- every file is older than the clock -/
-def ClockInv (w : World C) : Prop := ∀ p f, w.fs p = some f → f.mtime < w.clock
-
-theorem ClockInv.put {w : World C} (h : ClockInv w) (p : String) (c : C) (e : Event) : ClockInv (w.put p c e) := by
-  intro q f hq
-  by_cases hqp : q = p
-  · subst hqp; simp at hq; subst hq; simp
-  · rw [put_fs_ne _ _ _ hqp] at hq; have := h q f hq; simp; omega
-
-/-- what a `Write` leaves in the file: the new text, except that `existing_unchanged` keeps an existing file -/
-def effective (mode : WMode) (old : Option (File C)) (new : C) : C :=
-  match mode, old with
-  | .existingUnchanged, some f => f.content
-  | _, _ => new
-
-theorem effective_cases (mode : WMode) (old : Option (File C)) (new : C) :
-    effective mode old new = new ∨ ∃ f, old = some f ∧ effective mode old new = f.content := by
-  cases mode <;> cases old <;> first | exact .inl rfl | exact .inr ⟨_, rfl, rfl⟩
-
-/-- a file with content `c` is at path `p` -/
-def HasContent (fs : FS C) (p : String) (c : C) : Prop := ∃ f, fs p = some f ∧ f.content = c
-
-theorem writeCore_frame (mode : WMode) (p : String) (c : C) (w : World C) (chg : Option Bool) {q : String} (h : q ≠ p) :
-    (writeCore mode p c w chg).1.fs q = w.fs q := by
-  unfold writeCore
-  split
-  · split
-    · rfl
-    · exact put_fs_ne _ _ _ h
-    · split
-      · exact put_fs_ne _ _ _ h
-      · rfl
-  · exact put_fs_ne _ _ _ h
-
-theorem writeCore_content (mode : WMode) (p : String) (c : C) (w : World C) (chg : Option Bool) :
-    HasContent (writeCore mode p c w chg).1.fs p (effective mode (w.fs p) c) := by
-  unfold writeCore HasContent
-  split
-  next f hf =>
-    split
-    · exact ⟨f, hf, by simp [effective, hf]⟩
-    · exact ⟨_, put_fs_eq _ _ _ _, by simp [effective]⟩
-    · split
-      · exact ⟨_, put_fs_eq _ _ _ _, by simp [effective]⟩
-      next hc => exact ⟨f, hf, by simp at hc; simp [effective, hc]⟩
-  next hf => exact ⟨_, put_fs_eq _ _ _ _, by simp [effective, hf]⟩
-
-theorem writeCore_clockInv (mode : WMode) (p : String) (c : C) (w : World C) (chg : Option Bool) (h : ClockInv w) :
-    ClockInv (writeCore mode p c w chg).1 := by
-  unfold writeCore
-  split
-  · split
-    · exact h
-    · exact h.put _ _ _
-    · split
-      · exact h.put _ _ _
-      · exact h
-  · exact h.put _ _ _
-
-theorem writeCore_clock_le (mode : WMode) (p : String) (c : C) (w : World C) (chg : Option Bool) :
-    w.clock ≤ (writeCore mode p c w chg).1.clock := by
-  unfold writeCore
-  split
-  · split
-    · exact Nat.le_refl _
-    · simp
-    · split
-      · simp
-      · exact Nat.le_refl _
-  · simp
-
-/-- the three outcomes of `Write`: `changed` is true afterwards; or the file existed and is kept as it is
-(`changed` is the incoming value, `False` when unset); or the file did not exist, is created now and
-`changed` is left as it came. -/
-theorem writeCore_cases (mode : WMode) (p : String) (c : C) (w : World C) (chg : Option Bool) :
-    (writeCore mode p c w chg).2 = some true
-    ∨ ((writeCore mode p c w chg) = (w, some (chg.getD false)) ∧ ∃ f, w.fs p = some f ∧ effective mode (w.fs p) c = f.content)
-    ∨ (w.fs p = none ∧ writeCore mode p c w chg = (w.put p c (.write p), chg)) := by
-  unfold writeCore
-  split
-  next f hf =>
-    split
-    · exact .inr (.inl ⟨rfl, f, hf, by simp [effective, hf]⟩)
-    · exact .inl rfl
-    · split
-      · exact .inl rfl
-      next hc => exact .inr (.inl ⟨rfl, f, hf, by simp at hc; simp [effective, hc]⟩)
-  next hf => exact .inr (.inr ⟨hf, rfl⟩)
-
-
-/-! ## the converters -/
-
-def depContents (fs : FS C) (ps : List String) : List (Option C) := ps.map fun p => (fs p).map (·.content)
-
-theorem latexCore_launch (conv : Conv C) (lo : Bool) (texP pdfP : String) (w : World C) (chg : Option Bool) (tf : File C)
-    (ht : w.fs texP = some tf) (h : chg = some true ∨ lo = true ∨ w.fs pdfP = none) :
-    latexCore conv lo texP pdfP w chg
-      = .ok (w.put pdfP (conv.pdfOf tf.content (depContents w.fs (conv.depsOf tf.content))) (.latex texP), true, true) := by
-  unfold latexCore depContents
-  rcases h with h | h | h
-  · subst h; simp [ht]
-  · subst h; cases chg <;> cases hp : w.fs pdfP <;> simp [ht]
-  · cases chg <;> simp [ht, h]
-
-theorem latexCore_skip (conv : Conv C) (texP pdfP : String) (w : World C) (h : (w.fs pdfP).isSome) :
-    latexCore conv false texP pdfP w (some false) = .ok (w, false, true) := by
-  unfold latexCore
-  simp [h]
-
-theorem pngCore_run (conv : Conv C) (po : Bool) (pdfP pngP : String) (w : World C) (chg : Option Bool) (pf : File C)
-    (hp : w.fs pdfP = some pf) (h : w.fs pngP = none ∨ po = true ∨ chg = some true) :
-    pngCore conv po pdfP pngP w chg = (w.put pngP (conv.pngOf pf.content) (.topng pdfP), true) := by
-  unfold pngCore
-  rcases h with h | h | h <;> simp [h, hp]
-
-theorem pngCore_skip (conv : Conv C) (pdfP pngP : String) (w : World C) (h : (w.fs pngP).isSome) :
-    pngCore conv false pdfP pngP w (some false) = (w, false) := by
-  unfold pngCore
-  cases hg : w.fs pngP <;> simp_all
-
-
-/-! ## one unit: source files, the `.tex` file, the pdf and the image -/
-
-/-- the files of one plot (or of one group of plots): the CSV files, the `.tex` file that names them, the pdf
-rendered from them and the image converted from the pdf -/
-structure FUnit where
-  csvs : List String
-  tex : String
-  pdf : String
-  png : String
-
-def FUnit.Distinct (u : FUnit) : Prop :=
-  u.tex ∉ u.csvs ∧ u.pdf ∉ u.csvs ∧ u.png ∉ u.csvs ∧ u.tex ≠ u.pdf ∧ u.tex ≠ u.png ∧ u.pdf ≠ u.png
-
-/-- `LaTeXToPDF` then `PDFToPNG` on the value of a unit whose incoming `output.changed` is `c`: the world and
-the `output.changed` of the yielded value (`none`: the LaTeX command failed, nothing is yielded) -/
-def convCore (conv : Conv C) (lo po : Bool) (u : FUnit) (w : World C) (c : Option Bool) :
-    Except Exc (World C × Option Bool) :=
-  match latexCore conv lo u.tex u.pdf w c with
-  | .error e => .error e
-  | .ok (w3, _, false) => .ok (w3, none)
-  | .ok (w3, c3, true) =>
-    let r := pngCore conv po u.pdf u.png w3 (some c3)
-    .ok (r.1, some r.2)
-
-/-- second `Write` (the `.tex` file), `LaTeXToPDF`, `PDFToPNG` -/
-def downCore (conv : Conv C) (m2 : WMode) (lo po : Bool) (u : FUnit) (ntex : C) (w : World C) (c1 : Option Bool) :
-    Except Exc (World C × Option Bool) :=
-  let r2 := writeCore m2 u.tex ntex w c1
-  convCore conv lo po u r2.1 r2.2
-
-theorem convCore_launch (conv : Conv C) (lo po : Bool) (u : FUnit) (w : World C) (c : Option Bool) (tf : File C)
-    (hd : u.Distinct) (hclk : ClockInv w) (ht : w.fs u.tex = some tf)
-    (h : c = some true ∨ lo = true ∨ w.fs u.pdf = none) :
-    ∃ w', convCore conv lo po u w c = .ok (w', some true) ∧
-      HasContent w'.fs u.pdf (conv.pdfOf tf.content (depContents w.fs (conv.depsOf tf.content))) ∧
-      HasContent w'.fs u.png (conv.pngOf (conv.pdfOf tf.content (depContents w.fs (conv.depsOf tf.content)))) ∧
-      (∀ q, q ≠ u.pdf → q ≠ u.png → w'.fs q = w.fs q) ∧ ClockInv w' ∧ w.clock ≤ w'.clock := by
-  obtain ⟨_, _, _, _, _, hpg⟩ := hd
-  unfold convCore
-  rw [latexCore_launch conv lo u.tex u.pdf w c tf ht h]
-  simp only
-  rw [pngCore_run conv po u.pdf u.png _ (some true) ⟨_, w.clock⟩ (put_fs_eq _ _ _ _) (.inr (.inr rfl))]
-  refine ⟨_, rfl, ?_, ?_, ?_, ?_, ?_⟩
-  · exact ⟨_, by rw [put_fs_ne _ _ _ hpg, put_fs_eq], rfl⟩
-  · exact ⟨_, put_fs_eq _ _ _ _, rfl⟩
-  · intro q h1 h2; rw [put_fs_ne _ _ _ h2, put_fs_ne _ _ _ h1]
-  · exact (hclk.put _ _ _).put _ _ _
-  · simp; omega
-
-theorem convCore_skip (conv : Conv C) (po : Bool) (u : FUnit) (w : World C) (pf : File C)
-    (hpg : u.pdf ≠ u.png) (hclk : ClockInv w) (hp : w.fs u.pdf = some pf)
-    (hpng : ∀ gf, w.fs u.png = some gf → gf.content = conv.pngOf pf.content) :
-    ∃ w' c, convCore conv false po u w (some false) = .ok (w', some c) ∧
-      w'.fs u.pdf = some pf ∧ HasContent w'.fs u.png (conv.pngOf pf.content) ∧
-      (∀ q, q ≠ u.png → w'.fs q = w.fs q) ∧ ClockInv w' ∧ w.clock ≤ w'.clock := by
-  unfold convCore
-  rw [latexCore_skip conv u.tex u.pdf w (by simp [hp])]
-  simp only
-  by_cases hrun : w.fs u.png = none ∨ po = true
-  · rw [pngCore_run conv po u.pdf u.png w (some false) pf hp (by rcases hrun with h | h <;> simp [h])]
-    exact ⟨_, _, rfl, by rw [put_fs_ne _ _ _ hpg, hp], ⟨_, put_fs_eq _ _ _ _, rfl⟩, fun q h => put_fs_ne _ _ _ h,
-        hclk.put _ _ _, by simp⟩
-  · have hg : (w.fs u.png).isSome := by
-      cases hgg : w.fs u.png with
-      | none => exact absurd (.inl hgg) hrun
-      | some _ => rfl
-    have hpo : po = false := by
-      cases po with
-      | false => rfl
-      | true => exact absurd (.inr rfl) hrun
-    subst hpo
-    rw [pngCore_skip conv u.pdf u.png w hg]
-    obtain ⟨gf, hgf⟩ := Option.isSome_iff_exists.mp hg
-    exact ⟨_, _, rfl, hp, ⟨gf, hgf, hpng gf hgf⟩, fun q _ => rfl, hclk, Nat.le_refl _⟩
-
-
-/-- **The second `Write` and the two converters, for all option settings.**  `w` is the world after the source
-stage, `c1` the `output.changed` that the source stage hands on.  If `c1` is true, or the pdf is missing, or
-the existing pdf is what the LaTeX command produces from the files now on disk (`hsrc`), and an existing pdf
-has its `.tex` file on disk (`hsc`), then afterwards the `.tex` file holds the current text, the pdf is
-rendered from it and from the CSV files on disk, and the image is converted from that pdf. -/
-theorem downCore_spec (conv : Conv C) (m2 : WMode) (lo po : Bool) (u : FUnit) (ntex : C) (w : World C) (c1 : Option Bool)
-    (hd : u.Distinct) (hclk : ClockInv w)
-    (htd : ∀ tf, w.fs u.tex = some tf → conv.depsOf tf.content = u.csvs)
-    (hpng : ∀ gf pf, w.fs u.png = some gf → w.fs u.pdf = some pf → gf.content = conv.pngOf pf.content)
-    (hsrc : c1 = some true ∨ w.fs u.pdf = none ∨
-      ∀ pf tf, w.fs u.pdf = some pf → w.fs u.tex = some tf → pf.content = conv.pdfOf tf.content (depContents w.fs u.csvs))
-    (hsc : (w.fs u.pdf).isSome → (w.fs u.tex).isSome)
-    (hdeps : conv.depsOf ntex = u.csvs) :
-    ∃ w' c, downCore conv m2 lo po u ntex w c1 = .ok (w', some c) ∧
-      HasContent w'.fs u.tex (effective m2 (w.fs u.tex) ntex) ∧
-      HasContent w'.fs u.pdf (conv.pdfOf (effective m2 (w.fs u.tex) ntex) (depContents w.fs u.csvs)) ∧
-      HasContent w'.fs u.png (conv.pngOf (conv.pdfOf (effective m2 (w.fs u.tex) ntex) (depContents w.fs u.csvs))) ∧
-      (∀ q, q ≠ u.tex → q ≠ u.pdf → q ≠ u.png → w'.fs q = w.fs q) ∧ ClockInv w' ∧ w.clock ≤ w'.clock := by
-  have hd' := hd
-  obtain ⟨htc, hpc, hgc, htp, htg, hpg⟩ := hd'
-  -- facts about the world after the second Write
-  have hcont := writeCore_content m2 u.tex ntex w c1
-  have hfr : ∀ q, q ≠ u.tex → (writeCore m2 u.tex ntex w c1).1.fs q = w.fs q :=
-    fun q h => writeCore_frame m2 u.tex ntex w c1 h
-  have hclk2 := writeCore_clockInv m2 u.tex ntex w c1 hclk
-  have hle2 := writeCore_clock_le m2 u.tex ntex w c1
-  obtain ⟨tf2, htf2, hc2⟩ := hcont
-  -- the text on disk names the CSV files of the unit
-  have hdeps2 : conv.depsOf tf2.content = u.csvs := by
-    rw [hc2]
-    rcases effective_cases m2 (w.fs u.tex) ntex with h | ⟨f, hf, h⟩
-    · rw [h]; exact hdeps
-    · rw [h]; exact htd f hf
-  have hdc : depContents (writeCore m2 u.tex ntex w c1).1.fs u.csvs = depContents w.fs u.csvs := by
-    unfold depContents
-    apply List.map_congr_left
-    intro p hp
-    rw [hfr p (fun h => htc (h ▸ hp))]
-  -- launching gives everything
-  have launch : (writeCore m2 u.tex ntex w c1).2 = some true ∨ lo = true ∨ (writeCore m2 u.tex ntex w c1).1.fs u.pdf = none →
-      ∃ w' c, downCore conv m2 lo po u ntex w c1 = .ok (w', some c) ∧
-      HasContent w'.fs u.tex (effective m2 (w.fs u.tex) ntex) ∧
-      HasContent w'.fs u.pdf (conv.pdfOf (effective m2 (w.fs u.tex) ntex) (depContents w.fs u.csvs)) ∧
-      HasContent w'.fs u.png (conv.pngOf (conv.pdfOf (effective m2 (w.fs u.tex) ntex) (depContents w.fs u.csvs))) ∧
-      (∀ q, q ≠ u.tex → q ≠ u.pdf → q ≠ u.png → w'.fs q = w.fs q) ∧ ClockInv w' ∧ w.clock ≤ w'.clock := by
-    intro h
-    obtain ⟨w', he, hpdf, hpngc, hframe, hck, hle⟩ := convCore_launch conv lo po u _ _ tf2 hd hclk2 htf2 h
-    rw [hdeps2, hdc, hc2] at hpdf hpngc
-    refine ⟨w', true, he, ⟨tf2, ?_, hc2⟩, hpdf, hpngc, ?_, hck, Nat.le_trans hle2 hle⟩
-    · rw [hframe u.tex htp htg]; exact htf2
-    · intro q h1 h2 h3; rw [hframe q h2 h3, hfr q h1]
-  by_cases hlo : lo = true
-  · exact launch (.inr (.inl hlo))
-  have hlo : lo = false := by
-    cases lo with
-    | false => rfl
-    | true => exact absurd rfl hlo
-  cases hpdf : w.fs u.pdf with
-  | none => exact launch (.inr (.inr (by rw [hfr u.pdf (Ne.symm htp)]; exact hpdf)))
-  | some pf =>
-    rcases writeCore_cases m2 u.tex ntex w c1 with h | ⟨heq, f, hf, he⟩ | ⟨hnone, _⟩
-    · exact launch (.inl h)
-    · -- the .tex file is kept as it is
-      rcases hsrc with h1 | h1 | h1
-      · exact launch (.inl (by rw [heq, h1]; rfl))
-      · rw [h1] at hpdf; cases hpdf
-      · by_cases hct : c1 = some true
-        · exact launch (.inl (by rw [heq, hct]; rfl))
-        · have hgd : c1.getD false = false := by
-            cases hc : c1 with
-            | none => rfl
-            | some b => cases b <;> simp_all
-          have hw : writeCore m2 u.tex ntex w c1 = (w, some false) := by rw [heq, hgd]
-          obtain ⟨w', c, hcv, hp', hg', hframe, hck, hle⟩ :=
-            convCore_skip conv po u w pf hpg hclk hpdf (fun gf hgf => hpng gf pf hgf hpdf)
-          have hpc' := h1 pf f hpdf hf
-          refine ⟨w', c, ?_, ⟨f, ?_, he.symm⟩, ⟨pf, hp', ?_⟩, ?_, ?_, hck, hle⟩
-          · unfold downCore; rw [hw, hlo]; exact hcv
-          · rw [hframe u.tex htg]; exact hf
-          · rw [he]; exact hpc'
-          · rw [he, ← hpc']; exact hg'
-          · intro q _ _ h3; exact hframe q h3
-    · -- the .tex file is missing although the pdf exists: excluded by `hsc`
-      have := hsc (by simp [hpdf])
-      simp [hnone] at this
-
-
-/-! ## invariant of a unit, `SourceClosed`, freshness -/
-
-/-- **Invariant between runs** (it survives the removal of any files): the `.tex` file on disk names the CSV
-files of the unit; a pdf whose `.tex` and CSV files are all on disk is what the LaTeX command produces from
-them; an image whose pdf is on disk was converted from it. -/
-structure UnitInv (conv : Conv C) (u : FUnit) (fs : FS C) : Prop where
-  texDeps : ∀ tf, fs u.tex = some tf → conv.depsOf tf.content = u.csvs
-  pdfCons : ∀ pf tf, fs u.pdf = some pf → fs u.tex = some tf → (∀ p ∈ u.csvs, (fs p).isSome) →
-    pf.content = conv.pdfOf tf.content (depContents fs u.csvs)
-  pngCons : ∀ gf pf, fs u.png = some gf → fs u.pdf = some pf → gf.content = conv.pngOf pf.content
-
-/-- every existing pdf has its `.tex` file and its CSV files on disk -/
-def SourceClosed (u : FUnit) (fs : FS C) : Prop :=
-  (fs u.pdf).isSome → (fs u.tex).isSome ∧ ∀ p ∈ u.csvs, (fs p).isSome
-
-/-- the files of the unit hold exactly what is produced from the CSV texts `ecsvs` and the LaTeX text `etex` -/
-def UnitFresh (conv : Conv C) (u : FUnit) (fs : FS C) (ecsvs : List C) (etex : C) : Prop :=
-  depContents fs u.csvs = ecsvs.map some ∧ HasContent fs u.tex etex ∧
-  HasContent fs u.pdf (conv.pdfOf etex (ecsvs.map some)) ∧
-  HasContent fs u.png (conv.pngOf (conv.pdfOf etex (ecsvs.map some)))
-
-theorem depContents_congr {fs fs' : FS C} {ps : List String} (h : ∀ p ∈ ps, fs' p = fs p) :
-    depContents fs' ps = depContents fs ps := by
-  unfold depContents
-  exact List.map_congr_left (fun p hp => by rw [h p hp])
-
-theorem UnitInv.of_fresh {conv : Conv C} {u : FUnit} {fs : FS C} {ecsvs : List C} {etex : C}
-    (h : UnitFresh conv u fs ecsvs etex) (hdeps : conv.depsOf etex = u.csvs) : UnitInv conv u fs := by
-  obtain ⟨hc, ⟨tf, htf, htc⟩, ⟨pf, hpf, hpc⟩, ⟨gf, hgf, hgc⟩⟩ := h
-  refine ⟨?_, ?_, ?_⟩
-  · intro tf' h'; rw [htf] at h'; cases h'; rw [htc]; exact hdeps
-  · intro pf' tf' h1 h2 _; rw [hpf] at h1; rw [htf] at h2; cases h1; cases h2; rw [hpc, htc, hc]
-  · intro gf' pf' h1 h2; rw [hgf] at h1; rw [hpf] at h2; cases h1; cases h2; rw [hgc, hpc]
-
-theorem UnitInv.del {conv : Conv C} {u : FUnit} {fs : FS C} (h : UnitInv conv u fs) (ps : List String) :
-    UnitInv conv u (fs.del ps) := by
-  have key : ∀ q f, (fs.del ps) q = some f → fs q = some f := by
-    intro q f hq; unfold FS.del at hq; split at hq
-    · cases hq
-    · exact hq
-  refine ⟨?_, ?_, ?_⟩
-  · intro tf h1; exact h.texDeps tf (key _ _ h1)
-  · intro pf tf h1 h2 h3
-    have hall : ∀ p ∈ u.csvs, (fs.del ps) p = fs p := by
-      intro p hp
-      have := h3 p hp
-      obtain ⟨f, hf⟩ := Option.isSome_iff_exists.mp this
-      rw [hf, key _ _ hf]
-    rw [depContents_congr hall]
-    exact h.pdfCons pf tf (key _ _ h1) (key _ _ h2) (fun p hp => by rw [← hall p hp]; exact h3 p hp)
-  · intro gf pf h1 h2; exact h.pngCons gf pf (key _ _ h1) (key _ _ h2)
-
-theorem UnitInv.empty (conv : Conv C) (u : FUnit) : UnitInv conv u (FS.empty : FS C) :=
-  ⟨fun _ h => by simp [FS.empty] at h, fun _ _ h => by simp [FS.empty] at h, fun _ _ h => by simp [FS.empty] at h⟩
-
-/-- **From the source stage to the converters.**  `w1` is the world after the CSV files were written and `c1`
-the `output.changed` handed on.  If only CSV files of the unit were touched and `c1` is true unless a CSV file
-was missing at the start or none was touched, then — for a run that starts `SourceClosed` — the hypotheses of
-`downCore_spec` hold. -/
-theorem down_of_source (conv : Conv C) (m2 : WMode) (lo po : Bool) (u : FUnit) (ntex : C) (w w1 : World C) (c1 : Option Bool)
-    (hd : u.Distinct) (hinv : UnitInv conv u w.fs) (hsc : SourceClosed u w.fs) (hclk1 : ClockInv w1)
-    (hframe : ∀ q, q ∉ u.csvs → w1.fs q = w.fs q)
-    (hall : ∀ p ∈ u.csvs, (w1.fs p).isSome)
-    (hflag : c1 = some true ∨ (∃ p ∈ u.csvs, w.fs p = none) ∨ (∀ p ∈ u.csvs, w1.fs p = w.fs p))
-    (hdeps : conv.depsOf ntex = u.csvs) :
-    ∃ w' c, downCore conv m2 lo po u ntex w1 c1 = .ok (w', some c) ∧
-      HasContent w'.fs u.tex (effective m2 (w.fs u.tex) ntex) ∧
-      HasContent w'.fs u.pdf (conv.pdfOf (effective m2 (w.fs u.tex) ntex) (depContents w1.fs u.csvs)) ∧
-      HasContent w'.fs u.png (conv.pngOf (conv.pdfOf (effective m2 (w.fs u.tex) ntex) (depContents w1.fs u.csvs))) ∧
-      (∀ q, q ≠ u.tex → q ≠ u.pdf → q ≠ u.png → w'.fs q = w1.fs q) ∧ ClockInv w' ∧ w1.clock ≤ w'.clock := by
-  have hd' := hd
-  obtain ⟨htc, hpc, hgc, _, _, _⟩ := hd'
-  have ht := hframe u.tex htc
-  have hp := hframe u.pdf hpc
-  have hg := hframe u.png hgc
-  have := downCore_spec conv m2 lo po u ntex w1 c1 hd hclk1
-    (fun tf h => hinv.texDeps tf (by rw [← ht]; exact h))
-    (fun gf pf h1 h2 => hinv.pngCons gf pf (by rw [← hg]; exact h1) (by rw [← hp]; exact h2))
-    (by
-      rcases hflag with h | ⟨p, hp1, hp2⟩ | h
-      · exact .inl h
-      · refine .inr (.inl ?_)
-        rw [hp]
-        cases hpdf : w.fs u.pdf with
-        | none => rfl
-        | some pf =>
-          have := (hsc (by simp [hpdf])).2 p hp1
-          simp [hp2] at this
-      · refine .inr (.inr ?_)
-        intro pf tf h1 h2
-        rw [depContents_congr h]
-        exact hinv.pdfCons pf tf (by rw [← hp]; exact h1) (by rw [← ht]; exact h2)
-          (fun p hp' => by rw [← h p hp']; exact hall p hp'))
-    (by rw [hp, ht]; exact fun h => (hsc h).1)
-    hdeps
-  rw [ht] at this
-  exact this
-
-
-/-! ## one plot: `Write` (csv), `Write` (tex), `LaTeXToPDF`, `PDFToPNG` -/
-
-/-- the bookkeeping of one plot whose CSV file is `pc` -/
-def sepCore (conv : Conv C) (m1 m2 : WMode) (lo po : Bool) (u : FUnit) (pc : String) (ncsv ntex : C) (w : World C) :
-    Except Exc (World C × Option Bool) :=
-  let r1 := writeCore m1 pc ncsv w none
-  downCore conv m2 lo po u ntex r1.1 r1.2
-
-theorem effective_deps (conv : Conv C) (u : FUnit) (fs : FS C) (m2 : WMode) (ntex : C)
-    (hinv : UnitInv conv u fs) (hdeps : conv.depsOf ntex = u.csvs) :
-    conv.depsOf (effective m2 (fs u.tex) ntex) = u.csvs := by
-  rcases effective_cases m2 (fs u.tex) ntex with h | ⟨f, hf, h⟩
-  · rw [h]; exact hdeps
-  · rw [h]; exact hinv.texDeps f hf
-
-/-- **`run_fresh_partial`, bookkeeping level, one plot, all option settings.**  For every world that satisfies the
-invariant and is `SourceClosed` for the plot, every data text `ncsv`, template text `ntex` (naming the CSV
-file) and every setting of the two `Write`s and the two converters: the run succeeds, afterwards the four files
-exist with exactly the content produced from the current texts (`existing_unchanged` keeps an existing
-source file, that is its documented contract), only the plot's files were touched, and the invariant holds again. -/
-theorem sepCore_fresh (conv : Conv C) (m1 m2 : WMode) (lo po : Bool) (u : FUnit) (pc : String) (ncsv ntex : C) (w : World C)
-    (hu : u.csvs = [pc]) (hd : u.Distinct) (hclk : ClockInv w) (hinv : UnitInv conv u w.fs)
-    (hsc : SourceClosed u w.fs) (hdeps : conv.depsOf ntex = u.csvs) :
-    ∃ w' c, sepCore conv m1 m2 lo po u pc ncsv ntex w = .ok (w', some c) ∧
-      UnitFresh conv u w'.fs [effective m1 (w.fs pc) ncsv] (effective m2 (w.fs u.tex) ntex) ∧
-      (∀ q, q ∉ u.csvs → q ≠ u.tex → q ≠ u.pdf → q ≠ u.png → w'.fs q = w.fs q) ∧
-      ClockInv w' ∧ w.clock ≤ w'.clock ∧ UnitInv conv u w'.fs := by
-  have hd' := hd
-  obtain ⟨htc, hpc, hgc, _, _, _⟩ := hd'
-  have hmem : ∀ q, q ∉ u.csvs ↔ q ≠ pc := by intro q; rw [hu]; simp
-  have hfr : ∀ q, q ∉ u.csvs → (writeCore m1 pc ncsv w none).1.fs q = w.fs q :=
-    fun q h => writeCore_frame m1 pc ncsv w none ((hmem q).mp h)
-  obtain ⟨cf, hcf, hcc⟩ := writeCore_content m1 pc ncsv w none
-  have hflag : (writeCore m1 pc ncsv w none).2 = some true ∨ (∃ p ∈ u.csvs, w.fs p = none) ∨
-      (∀ p ∈ u.csvs, (writeCore m1 pc ncsv w none).1.fs p = w.fs p) := by
-    rcases writeCore_cases m1 pc ncsv w none with h | ⟨heq, _⟩ | ⟨hnone, _⟩
-    · exact .inl h
-    · exact .inr (.inr (fun p _ => by rw [heq]))
-    · exact .inr (.inl ⟨pc, by rw [hu]; simp, hnone⟩)
-  obtain ⟨w', c, he, htex, hpdf, hpng, hframe, hck, hle⟩ :=
-    down_of_source conv m2 lo po u ntex w _ _ hd hinv hsc (writeCore_clockInv m1 pc ncsv w none hclk) hfr
-      (by intro p hp; rw [hu] at hp; simp at hp; subst hp; simp [hcf]) hflag hdeps
-  have hdc1 : depContents (writeCore m1 pc ncsv w none).1.fs u.csvs = [some (effective m1 (w.fs pc) ncsv)] := by
-    rw [hu]; simp [depContents, hcf, hcc]
-  rw [hdc1] at hpdf hpng
-  have hcsv' : ∀ p ∈ u.csvs, w'.fs p = (writeCore m1 pc ncsv w none).1.fs p := by
-    intro p hp
-    exact hframe p (fun h => htc (h ▸ hp)) (fun h => hpc (h ▸ hp)) (fun h => hgc (h ▸ hp))
-  have hfresh : UnitFresh conv u w'.fs [effective m1 (w.fs pc) ncsv] (effective m2 (w.fs u.tex) ntex) :=
-    ⟨by rw [depContents_congr hcsv', hdc1]; rfl, htex, hpdf, hpng⟩
-  refine ⟨w', c, he, hfresh, ?_, hck, Nat.le_trans (writeCore_clock_le m1 pc ncsv w none) hle,
-    UnitInv.of_fresh hfresh (effective_deps conv u w.fs m2 ntex hinv hdeps)⟩
-  intro q h0 h1 h2 h3
-  rw [hframe q h1 h2 h3, hfr q h0]
-
-
-/-! ## the pipeline of one plot is the bookkeeping on the resolved file names -/
-
-theorem mfStep_filetype (ow : Bool) (name : Option String) (o : OutCtx) (m : MFKey × Tpl) :
-    (mfStep ow name o m).1.filetype = o.filetype := by
-  obtain ⟨k, t⟩ := m
-  cases k <;> simp only [mfStep] <;> (repeat' split) <;> rfl
-
-theorem mfCall_filetype (ow : Bool) (ms : List (MFKey × Tpl)) (name : Option String) (o : OutCtx) :
-    (mfCall ow ms name o).1.filetype = o.filetype := by
-  unfold mfCall
-  suffices h : ∀ (acc : OutCtx × Bool),
-      (ms.foldl (fun acc m => let r := mfStep ow name acc.1 m; (r.1, acc.2 || r.2)) acc).1.filetype = acc.1.filetype from h _
-  induction ms with
-  | nil => intro acc; rfl
-  | cons m rest ih => intro acc; rw [List.foldl_cons, ih]; exact mfStep_filetype ow name acc.1 m
-
-/-- `context.output` of a plot after `ToCSV` and `MakeFilename` -/
-def plotCtx (cfg : Cfg) (ms : List (MFKey × Tpl)) (pl : Plot) : OutCtx :=
-  (mfCall cfg.mf.overwrite ms pl.name { filetype := some "csv" }).1
-
-/-- the file names that the two `Write`s and the two converters compute for a plot: its unit and its CSV path -/
-def plotUnit (cfg : Cfg) (ms : List (MFKey × Tpl)) (pl : Plot) : Except Exc (FUnit × String) :=
-  let o1 := plotCtx cfg ms pl
-  match wmfCore cfg.outdir "output" o1.dirname o1.filename o1.fileext (some "csv") with
-  | .error e => .error e
-  | .ok (_, fn, _, pc) =>
-    match wmfCore cfg.outdir "output" o1.dirname (some fn) (some "tex") (some "tex") with
-    | .error e => .error e
-    | .ok (_, _, _, pt) => .ok (⟨[pc], pt, pdfPathOf pt, pngPathOf (pdfPathOf pt) "png"⟩, pc)
-
-theorem mfStep_changed (ow : Bool) (name : Option String) (o : OutCtx) (m : MFKey × Tpl) :
-    (mfStep ow name o m).1.changed = o.changed := by
-  obtain ⟨k, t⟩ := m
-  cases k <;> simp only [mfStep] <;> (repeat' split) <;> rfl
-
-theorem mfCall_changed (ow : Bool) (ms : List (MFKey × Tpl)) (name : Option String) (o : OutCtx) :
-    (mfCall ow ms name o).1.changed = o.changed := by
-  unfold mfCall
-  suffices h : ∀ (acc : OutCtx × Bool),
-      (ms.foldl (fun acc m => let r := mfStep ow name acc.1 m; (r.1, acc.2 || r.2)) acc).1.changed = acc.1.changed from h _
-  induction ms with
-  | nil => intro acc; rfl
-  | cons m rest ih => intro acc; rw [List.foldl_cons, ih]; exact mfStep_changed ow name acc.1 m
-
-/-- `Write.run` on a text: the file name comes from `_make_filename`, the rest is `writeCore` -/
-theorem writeVal_text (conv : Conv C) (outdir : String) (mode : WMode) (w : World C) (v : Val C) (c : C)
-    (d fn fe p : String) (hd : v.data = .text c)
-    (hn : wmfCore outdir "output" v.out.dirname v.out.filename v.out.fileext v.out.filetype = .ok (d, fn, fe, p)) :
-    writeVal conv outdir mode w v = .ok ((writeCore mode p c w v.out.changed).1,
-      { v with data := .path p,
-               out := { v.out with filename := some fn, fileext := some fe, filepath := some p,
-                                   changed := (writeCore mode p c w v.out.changed).2 } }) := by
-  unfold writeVal wMakeFilename
-  rw [hd]
-  simp only [hn]
-  rfl
-
-theorem latexVal_path (conv : Conv C) (lo : Bool) (w : World C) (v : Val C) (t : String)
-    (hft : v.out.filetype = some "tex") (hd : v.data = .path t) :
-    latexVal conv lo w v =
-      match latexCore conv lo t (pdfPathOf t) w v.out.changed with
-      | .error e => .error e
-      | .ok (w', chg', yielded) =>
-        .ok (w', if yielded then
-          some { v with data := .path (pdfPathOf t), out := { v.out with filetype := some "pdf", changed := some chg' } }
-          else none) := by
-  unfold latexVal
-  rw [if_pos hft, hd]
-  rfl
-
-theorem pngVal_path (conv : Conv C) (po : Bool) (w : World C) (v : Val C) (t : String)
-    (hft : v.out.filetype = some "pdf") (hd : v.data = .path t) :
-    pngVal conv po "png" w v =
-      .ok ((pngCore conv po t (pngPathOf t "png") w v.out.changed).1,
-        { v with data := .path (pngPathOf t "png"),
-                 out := { v.out with filetype := some "png",
-                                     changed := some (pngCore conv po t (pngPathOf t "png") w v.out.changed).2 } }) := by
-  unfold pngVal
-  rw [if_pos hft, hd]
-
-/-- `RenderLaTeX → Write → LaTeXToPDF → PDFToPNG` on a CSV value is `downCore` on the resolved names -/
-theorem tailStage_eq_downCore (conv : Conv C) (cfg : Cfg) (tpl : Nat) (w : World C) (v : Val C) (deps : List String)
-    (d fn fe pt : String) (hft : v.out.filetype = some "csv")
-    (hdeps : (match v.group with
-              | none => v.out.filepath.toList
-              | some g => g.filterMap (·.filepath)) = deps)
-    (hn : wmfCore cfg.outdir "output" v.out.dirname v.out.filename (some "tex") (some "tex") = .ok (d, fn, fe, pt))
-    (u : FUnit) (hut : u.tex = pt) (hup : u.pdf = pdfPathOf pt) (hug : u.png = pngPathOf (pdfPathOf pt) "png") :
-    ∀ w' oc, downCore conv cfg.w2 cfg.lo cfg.po u (conv.texOf tpl deps) w v.out.changed = .ok (w', oc) →
-      ∃ ov, tailStage conv cfg tpl w v = .ok (w', ov) ∧ (oc = none → ov = none) ∧
-        (∀ c, oc = some c → ∃ v', ov = some v' ∧ v'.data = .path u.png ∧ v'.out.changed = some c ∧
-          v'.out.filepath = some u.tex) := by
-  intro w' oc hs
-  unfold tailStage
-  have hr : renderVal conv tpl v = ⟨Data.text (conv.texOf tpl deps), v.name,
-      { v.out with filetype := some "tex", fileext := some "tex" }, v.group⟩ := by
-    unfold renderVal; rw [if_pos hft]; subst hdeps; rfl
-  rw [writeVal_text conv cfg.outdir cfg.w2 w (renderVal conv tpl v) (conv.texOf tpl deps) d fn fe pt
-    (by rw [hr]) (by rw [hr]; exact hn)]
-  simp only [hr]
-  rw [latexVal_path conv cfg.lo _ _ pt rfl rfl]
-  unfold downCore convCore at hs
-  rw [hut, hup, hug] at hs
-  simp only at hs ⊢
-  generalize latexCore conv cfg.lo pt (pdfPathOf pt) (writeCore cfg.w2 pt (conv.texOf tpl deps) w v.out.changed).1
-    (writeCore cfg.w2 pt (conv.texOf tpl deps) w v.out.changed).2 = L at hs ⊢
-  match L, hs with
-  | .error e, hs => cases hs
-  | .ok (w3, c3, false), hs =>
-    simp only [Except.ok.injEq, Prod.mk.injEq] at hs
-    obtain ⟨h1, h2⟩ := hs
-    subst h1 h2
-    exact ⟨none, by simp, fun _ => rfl, fun c hc => by cases hc⟩
-  | .ok (w3, c3, true), hs =>
-    simp only [Except.ok.injEq, Prod.mk.injEq] at hs
-    obtain ⟨h1, h2⟩ := hs
-    subst h1 h2
-    simp only [if_true]
-    rw [pngVal_path conv cfg.po w3 _ (pdfPathOf pt) rfl rfl]
-    refine ⟨_, rfl, ?_, ?_⟩
-    · intro h; cases h
-    · intro c hc
-      simp only [Option.some.injEq] at hc
-      subst hc
-      exact ⟨_, rfl, by rw [hug], rfl, by rw [hut]⟩
-
-/-- **Refinement.**  When the naming stages resolve the plot to the unit `u` with CSV file `pc`, the pipeline
-`ToCSV → MakeFilename → Write → RenderLaTeX → Write → LaTeXToPDF → PDFToPNG` acts on the world exactly as the
-bookkeeping `sepCore` on these names; the yielded value names the image and carries the final `output.changed`. -/
-theorem runPlot_eq_sepCore (conv : Conv C) (cfg : Cfg) (ms : List (MFKey × Tpl)) (tpl : Nat) (w : World C) (pl : Plot)
-    (u : FUnit) (pc : String) (h : plotUnit cfg ms pl = .ok (u, pc)) :
-    ∀ w' oc, sepCore conv cfg.w1 cfg.w2 cfg.lo cfg.po u pc (conv.csvOf pl.data) (conv.texOf tpl [pc]) w = .ok (w', oc) →
-      ∃ ov, runPlot conv cfg ms tpl w pl = .ok (w', ov) ∧
-        (oc = none → ov = none) ∧
-        (∀ c, oc = some c → ∃ v, ov = some v ∧ v.data = .path u.png ∧ v.out.changed = some c ∧ v.out.filepath = some u.tex) := by
-  intro w' oc hs
-  have hft : (plotCtx cfg ms pl).filetype = some "csv" := by
-    unfold plotCtx; rw [mfCall_filetype]
-  have hch : (plotCtx cfg ms pl).changed = none := by
-    unfold plotCtx; rw [mfCall_changed]
-  cases h1 : wmfCore cfg.outdir "output" (plotCtx cfg ms pl).dirname (plotCtx cfg ms pl).filename
-      (plotCtx cfg ms pl).fileext (some "csv") with
-  | error e => simp [plotUnit, h1] at h
-  | ok r1 =>
-    obtain ⟨d1, fn, fe, pc'⟩ := r1
-    cases h2 : wmfCore cfg.outdir "output" (plotCtx cfg ms pl).dirname (some fn) (some "tex") (some "tex") with
-    | error e => simp [plotUnit, h1, h2] at h
-    | ok r2 =>
-      obtain ⟨d2, fn2, fe2, pt⟩ := r2
-      simp [plotUnit, h1, h2] at h
-      obtain ⟨hu, hpc⟩ := h
-      subst hpc hu
-      unfold runPlot memberStage
-      have hv : (mfVal cfg.mf.overwrite ms (toCsvVal conv pl.name pl.data {}) : Val C)
-          = ⟨.text (conv.csvOf pl.data), pl.name, plotCtx cfg ms pl, none⟩ := rfl
-      rw [hv, writeVal_text conv cfg.outdir cfg.w1 w _ (conv.csvOf pl.data) d1 fn fe pc' rfl (by rw [← hft] at h1; exact h1)]
-      simp only [hch]
-      unfold sepCore at hs
-      simp only at hs
-      exact tailStage_eq_downCore conv cfg tpl (writeCore cfg.w1 pc' (conv.csvOf pl.data) w none).1
-        ⟨.path pc', pl.name, { plotCtx cfg ms pl with filename := some fn, fileext := some fe, filepath := some pc', changed := (writeCore cfg.w1 pc' (conv.csvOf pl.data) w none).2 }, none⟩
-        [pc'] d2 fn2 fe2 pt hft rfl h2 _ rfl rfl rfl w' oc hs
-
-
-/-! ## one plot, pipeline level -/
-
-/-- all files of a unit -/
-def FUnit.paths (u : FUnit) : List String := u.csvs ++ [u.tex, u.pdf, u.png]
-
-theorem FUnit.mem_paths {u : FUnit} {q : String} : q ∈ u.paths ↔ q ∈ u.csvs ∨ q = u.tex ∨ q = u.pdf ∨ q = u.png := by
-  simp [FUnit.paths]
-
-theorem UnitInv.congr {conv : Conv C} {u : FUnit} {fs fs' : FS C} (h : UnitInv conv u fs)
-    (heq : ∀ p ∈ u.paths, fs' p = fs p) : UnitInv conv u fs' := by
-  have ht : fs' u.tex = fs u.tex := heq _ (FUnit.mem_paths.mpr (.inr (.inl rfl)))
-  have hp : fs' u.pdf = fs u.pdf := heq _ (FUnit.mem_paths.mpr (.inr (.inr (.inl rfl))))
-  have hg : fs' u.png = fs u.png := heq _ (FUnit.mem_paths.mpr (.inr (.inr (.inr rfl))))
-  have hc : ∀ p ∈ u.csvs, fs' p = fs p := fun p hp => heq p (FUnit.mem_paths.mpr (.inl hp))
-  refine ⟨?_, ?_, ?_⟩
-  · intro tf h1; exact h.texDeps tf (by rw [← ht]; exact h1)
-  · intro pf tf h1 h2 h3
-    rw [depContents_congr hc]
-    exact h.pdfCons pf tf (by rw [← hp]; exact h1) (by rw [← ht]; exact h2) (fun p hp' => by rw [← hc p hp']; exact h3 p hp')
-  · intro gf pf h1 h2; exact h.pngCons gf pf (by rw [← hg]; exact h1) (by rw [← hp]; exact h2)
-
-theorem SourceClosed.congr {u : FUnit} {fs fs' : FS C} (h : SourceClosed u fs)
-    (heq : ∀ p ∈ u.paths, fs' p = fs p) : SourceClosed u fs' := by
-  have ht : fs' u.tex = fs u.tex := heq _ (FUnit.mem_paths.mpr (.inr (.inl rfl)))
-  have hp : fs' u.pdf = fs u.pdf := heq _ (FUnit.mem_paths.mpr (.inr (.inr (.inl rfl))))
-  have hc : ∀ p ∈ u.csvs, fs' p = fs p := fun p hp => heq p (FUnit.mem_paths.mpr (.inl hp))
-  intro h1
-  rw [hp] at h1
-  obtain ⟨h2, h3⟩ := h h1
-  exact ⟨by rw [ht]; exact h2, fun p hp' => by rw [hc p hp']; exact h3 p hp'⟩
-
-theorem UnitFresh.congr {conv : Conv C} {u : FUnit} {fs fs' : FS C} {ecsvs : List C} {etex : C}
-    (h : UnitFresh conv u fs ecsvs etex) (heq : ∀ p ∈ u.paths, fs' p = fs p) : UnitFresh conv u fs' ecsvs etex := by
-  have ht : fs' u.tex = fs u.tex := heq _ (FUnit.mem_paths.mpr (.inr (.inl rfl)))
-  have hp : fs' u.pdf = fs u.pdf := heq _ (FUnit.mem_paths.mpr (.inr (.inr (.inl rfl))))
-  have hg : fs' u.png = fs u.png := heq _ (FUnit.mem_paths.mpr (.inr (.inr (.inr rfl))))
-  have hc : ∀ p ∈ u.csvs, fs' p = fs p := fun p hp => heq p (FUnit.mem_paths.mpr (.inl hp))
-  obtain ⟨h1, h2, h3, h4⟩ := h
-  refine ⟨by rw [depContents_congr hc]; exact h1, ?_, ?_, ?_⟩
-  · unfold HasContent; rw [ht]; exact h2
-  · unfold HasContent; rw [hp]; exact h3
-  · unfold HasContent; rw [hg]; exact h4
-
-/-- the converters' texts name what they are given (`depsOf` reads the names back from a rendered text) -/
-def ConvOK (conv : Conv C) : Prop := ∀ t ps, conv.depsOf (conv.texOf t ps) = ps
-
-/-- what "fresh" means for a plot after a run that started in world `w0`: the four files hold what is produced
-from the current data and template (an `existing_unchanged` Write keeps a source file that existed in `w0`) -/
-def PlotFresh (conv : Conv C) (cfg : Cfg) (tpl : Nat) (w0 : World C) (fs' : FS C) (pl : Plot) (up : FUnit × String) : Prop :=
-  UnitFresh conv up.1 fs' [effective cfg.w1 (w0.fs up.2) (conv.csvOf pl.data)]
-    (effective cfg.w2 (w0.fs up.1.tex) (conv.texOf tpl [up.2]))
-
-theorem plotUnit_csvs {cfg : Cfg} {ms : List (MFKey × Tpl)} {pl : Plot} {up : FUnit × String}
-    (h : plotUnit cfg ms pl = .ok up) : up.1.csvs = [up.2] := by
-  unfold plotUnit at h
-  simp only at h
-  split at h
-  · cases h
-  · split at h
-    · cases h
-    · cases h; rfl
-
-/-- **one plot through the whole pipeline** (all option settings), for a run that starts `SourceClosed` -/
-theorem runPlot_fresh (conv : Conv C) (cfg : Cfg) (ms : List (MFKey × Tpl)) (tpl : Nat) (w : World C) (pl : Plot)
-    (up : FUnit × String) (h : plotUnit cfg ms pl = .ok up) (hok : ConvOK conv)
-    (hd : up.1.Distinct) (hclk : ClockInv w) (hinv : UnitInv conv up.1 w.fs) (hsc : SourceClosed up.1 w.fs) :
-    ∃ w' v, runPlot conv cfg ms tpl w pl = .ok (w', some v) ∧ v.data = .path up.1.png ∧
-      PlotFresh conv cfg tpl w w'.fs pl up ∧
-      (∀ q, q ∉ up.1.paths → w'.fs q = w.fs q) ∧ ClockInv w' ∧ w.clock ≤ w'.clock ∧ UnitInv conv up.1 w'.fs := by
-  obtain ⟨u, pc⟩ := up
-  have hcs : u.csvs = [pc] := plotUnit_csvs h
-  obtain ⟨w', c, hs, hfresh, hframe, hck, hle, hinv'⟩ :=
-    sepCore_fresh conv cfg.w1 cfg.w2 cfg.lo cfg.po u pc (conv.csvOf pl.data) (conv.texOf tpl [pc]) w hcs hd hclk hinv hsc
-      (by rw [hok, hcs])
-  obtain ⟨ov, hr, _, hv⟩ := runPlot_eq_sepCore conv cfg ms tpl w pl u pc h w' (some c) hs
-  obtain ⟨v, hov, hdata, _, _⟩ := hv c rfl
-  subst hov
-  refine ⟨w', v, hr, hdata, hfresh, ?_, hck, hle, hinv'⟩
-  intro q hq
-  rw [FUnit.mem_paths] at hq
-  exact hframe q (fun h => hq (.inl h)) (fun h => hq (.inr (.inl h))) (fun h => hq (.inr (.inr (.inl h))))
-    (fun h => hq (.inr (.inr (.inr h))))
-
-
-/-! ## several plots -/
-
-/-- two units share no file -/
-def FUnit.Disjoint (a b : FUnit) : Prop := ∀ p ∈ a.paths, p ∉ b.paths
-
-/-- the naming stages resolve every plot to the unit paired with it -/
-def Resolves (cfg : Cfg) (ms : List (MFKey × Tpl)) (pus : List (Plot × (FUnit × String))) : Prop :=
-  ∀ x ∈ pus, plotUnit cfg ms x.1 = .ok x.2
-
-/-- the units are well formed: the files of one unit are different, different units share no file -/
-def UnitsOK (us : List (FUnit × String)) : Prop :=
-  (∀ up ∈ us, up.1.Distinct) ∧ us.Pairwise (fun a b => a.1.Disjoint b.1 ∧ b.1.Disjoint a.1)
-
-/-- **several plots as separate values of one flow**, all option settings, for a run that starts `SourceClosed` -/
-theorem runPlots_fresh (conv : Conv C) (cfg : Cfg) (ms : List (MFKey × Tpl)) (tpl : Nat) (hok : ConvOK conv) :
-    ∀ (pus : List (Plot × (FUnit × String))) (w : World C),
-      Resolves cfg ms pus → UnitsOK (pus.map (·.2)) → ClockInv w →
-      (∀ x ∈ pus, UnitInv conv x.2.1 w.fs ∧ SourceClosed x.2.1 w.fs) →
-      ∃ w' vs, runPlots conv cfg ms tpl w (pus.map (·.1)) = .ok (w', vs) ∧
-        vs.map (fun v => dataPath v) = pus.map (fun x => x.2.1.png) ∧
-        (∀ x ∈ pus, PlotFresh conv cfg tpl w w'.fs x.1 x.2) ∧
-        (∀ q, (∀ x ∈ pus, q ∉ x.2.1.paths) → w'.fs q = w.fs q) ∧ ClockInv w' ∧ w.clock ≤ w'.clock ∧
-        (∀ x ∈ pus, UnitInv conv x.2.1 w'.fs) := by
-  intro pus
-  induction pus with
-  | nil =>
-    intro w _ _ hclk _
-    refine ⟨w, [], rfl, rfl, ?_, fun _ _ => rfl, hclk, Nat.le_refl _, ?_⟩
-    · intro x h; cases h
-    · intro x h; cases h
-  | cons x pus ih =>
-    intro w hres hu hclk hall
-    obtain ⟨hdist, hpw⟩ := hu
-    rw [List.map_cons, List.pairwise_cons] at hpw
-    obtain ⟨hdisj, hpw'⟩ := hpw
-    have hdisj' : ∀ y ∈ pus, x.2.1.Disjoint y.2.1 ∧ y.2.1.Disjoint x.2.1 :=
-      fun y hy => hdisj y.2 (List.mem_map_of_mem hy)
-    obtain ⟨hinv, hsc⟩ := hall x (by simp)
-    obtain ⟨w1, v, hr, hdata, hfresh, hframe, hck1, hle1, hinv1⟩ :=
-      runPlot_fresh conv cfg ms tpl w x.1 x.2 (hres x (by simp)) hok (hdist x.2 (by simp)) hclk hinv hsc
-    -- the other units are untouched by the first plot
-    have hother : ∀ y ∈ pus, ∀ p ∈ y.2.1.paths, w1.fs p = w.fs p := by
-      intro y hy p hp
-      exact hframe p (fun h => (hdisj' y hy).1 p h hp)
-    obtain ⟨w', vs, hrs, hdatas, hfreshs, hframes, hck', hle', hinvs⟩ :=
-      ih w1 (fun y hy => hres y (by simp [hy])) ⟨fun up' h => hdist up' (by simp at h ⊢; exact .inr h), hpw'⟩ hck1
-        (fun y hy => ⟨(hall y (by simp [hy])).1.congr (hother y hy), (hall y (by simp [hy])).2.congr (hother y hy)⟩)
-    -- the first unit is untouched by the other plots
-    have hfirst : ∀ p ∈ x.2.1.paths, w'.fs p = w1.fs p := by
-      intro p hp
-      exact hframes p (fun y hy h => (hdisj' y hy).1 p hp h)
-    refine ⟨w', v :: vs, ?_, ?_, ?_, ?_, hck', Nat.le_trans hle1 hle', ?_⟩
-    · simp only [List.map_cons]; unfold runPlots; rw [hr]; simp only; rw [hrs]; rfl
-    · rw [List.map_cons, List.map_cons, hdatas]; simp only [dataPath, hdata]
-    · intro y hy
-      simp only [List.mem_cons] at hy
-      rcases hy with h | h
-      · subst h; exact hfresh.congr hfirst
-      · -- freshness of the others was stated relative to `w1`, which agrees with `w` on their files
-        have hh := hfreshs y h
-        unfold PlotFresh at hh ⊢
-        have hcs := plotUnit_csvs (hres y (by simp [h]))
-        have e1 : w1.fs y.2.2 = w.fs y.2.2 := hother y h _ (FUnit.mem_paths.mpr (.inl (by rw [hcs]; simp)))
-        have e2 : w1.fs y.2.1.tex = w.fs y.2.1.tex := hother y h _ (FUnit.mem_paths.mpr (.inr (.inl rfl)))
-        rw [← e1, ← e2]; exact hh
-    · intro q hq
-      rw [hframes q (fun y h => hq y (by simp [h])), hframe q (hq x (by simp))]
-    · intro y hy
-      simp only [List.mem_cons] at hy
-      rcases hy with h | h
-      · subst h; exact hinv1.congr hfirst
-      · exact hinvs y h
-
 
 /-! ## runs and histories -/
 
@@ -1468,5 +722,282 @@ theorem group_changed_after_mapgroup (newOuts : List OutCtx) (oldInter : OutCtx)
           | false => rfl
           | true => exact absurd ⟨a, by rw [hl]; simp, this⟩ hany
     · rfl
+
+
+/-- **`run_fresh_partial` for a group (bookkeeping level)**: any number of members, all option settings; a run
+that starts `SourceClosed` leaves the members' CSV files, the combined `.tex` file, the pdf and the image with
+exactly the content produced from the current data and template. -/
+theorem grpCore_fresh (conv : Conv C) (m1 m2 : WMode) (lo po : Bool) (u : FUnit) (members : List (String × C)) (ntex : C)
+    (w : World C) (hu : u.csvs = members.map (·.1)) (hnd : u.csvs.Nodup) (hd : u.Distinct) (hclk : ClockInv w)
+    (hinv : UnitInv conv u w.fs) (hsc : SourceClosed u w.fs) (hdeps : conv.depsOf ntex = u.csvs) :
+    ∃ w' c, grpCore conv m1 m2 lo po u members ntex w = .ok (w', some c) ∧
+      UnitFresh conv u w'.fs (members.map fun pc => effective m1 (w.fs pc.1) pc.2) (effective m2 (w.fs u.tex) ntex) ∧
+      (∀ q, q ∉ u.paths → w'.fs q = w.fs q) ∧ ClockInv w' ∧ w.clock ≤ w'.clock ∧ UnitInv conv u w'.fs := by
+  have hd' := hd
+  obtain ⟨htc, hpc, hgc, _, _, _⟩ := hd'
+  obtain ⟨hfr, hcont, hflag, hck1, hle1⟩ := membersCore_spec m1 members w (hu ▸ hnd) hclk
+  simp only at hfr hcont hflag hck1 hle1
+  rw [← hu] at hfr hcont hflag
+  have hall : ∀ p ∈ u.csvs, ((membersCore m1 w members).1.fs p).isSome := by
+    intro p hp
+    have : (depContents (membersCore m1 w members).1.fs u.csvs).all (·.isSome) = true := by
+      rw [hcont]; simp
+    simp only [depContents, List.all_map, List.all_eq_true] at this
+    have := this p hp
+    simpa using this
+  have hflag' : some ((membersCore m1 w members).2.any (· == some true)) = some true ∨
+      (∃ p ∈ u.csvs, w.fs p = none) ∨ (∀ p ∈ u.csvs, (membersCore m1 w members).1.fs p = w.fs p) := by
+    rcases hflag with h | h | h
+    · exact .inl (by rw [List.any_eq_true.mpr ⟨_, h, by simp⟩])
+    · exact .inr (.inl h)
+    · exact .inr (.inr h)
+  obtain ⟨w', c, he, htex, hpdf, hpng, hframe, hck, hle⟩ :=
+    down_of_source conv m2 lo po u ntex w _ _ hd hinv hsc hck1 hfr hall hflag' hdeps
+  rw [hcont] at hpdf hpng
+  have hcsv' : ∀ p ∈ u.csvs, w'.fs p = (membersCore m1 w members).1.fs p := by
+    intro p hp
+    exact hframe p (fun h => htc (h ▸ hp)) (fun h => hpc (h ▸ hp)) (fun h => hgc (h ▸ hp))
+  have hfresh : UnitFresh conv u w'.fs (members.map fun pc => effective m1 (w.fs pc.1) pc.2) (effective m2 (w.fs u.tex) ntex) := by
+    have hmm : (members.map fun pc => some (effective m1 (w.fs pc.1) pc.2))
+        = (members.map fun pc => effective m1 (w.fs pc.1) pc.2).map some := by
+      rw [List.map_map]; rfl
+    rw [hmm] at hpdf hpng hcont
+    exact ⟨by rw [depContents_congr hcsv', hcont], htex, hpdf, hpng⟩
+  refine ⟨w', c, he, hfresh, ?_, hck, Nat.le_trans hle1 hle, UnitInv.of_fresh hfresh (effective_deps conv u w.fs m2 ntex hinv hdeps)⟩
+  intro q hq
+  rw [FUnit.mem_paths] at hq
+  rw [hframe q (fun h => hq (.inr (.inl h))) (fun h => hq (.inr (.inr (.inl h)))) (fun h => hq (.inr (.inr (.inr h)))),
+    hfr q (fun h => hq (.inl h))]
+
+
+theorem interOut_defaults (pls : List Plot) (h : pls ≠ []) : interOut (pls.map fun _ => ({} : OutCtx)) = {} := by
+  cases pls with
+  | nil => exact absurd rfl h
+  | cons a rest => simp [interOut, allEq_none_cons]
+
+theorem groupPlotsOut_defaults (pls : List Plot) (h : pls ≠ []) :
+    groupPlotsOut (pls.map fun _ => ({} : OutCtx)) = { changed := some false } := by
+  unfold groupPlotsOut
+  rw [interOut_defaults pls h]
+  have : groupPlotsChanged ((pls.map fun _ => ({} : OutCtx)).map (·.changed)) = false := by
+    rw [← Bool.not_eq_true, groupPlotsChanged_iff]
+    simp
+  rw [this]
+
+/-- a run of the group layout whose members and combined plot resolve to the unit `u` -/
+structure GroupOK (r : RunSpec) (mems : List (Plot × (OutCtx × String))) (u : FUnit) : Prop where
+  layout : r.layout = .group
+  plots : r.plots = mems.map (·.1)
+  nonempty : mems ≠ []
+  resolves : ∃ ms gms, mfInit r.cfg.mf = .ok ms ∧ mfInit r.cfg.gmf = .ok gms ∧
+    (∀ x ∈ mems, memberNamed r.cfg ms x.1 = .ok x.2) ∧
+    groupTexPath r.cfg gms (allEq (mems.map (·.1.name))) (mems.map (·.2.1)) = .ok u.tex
+  csvs : u.csvs = mems.map (·.2.2)
+  pdf : u.pdf = pdfPathOf u.tex
+  png : u.png = pngPathOf (pdfPathOf u.tex) "png"
+  nodup : u.csvs.Nodup
+  distinct : u.Distinct
+
+/-- **`run_fresh_partial` for the group layout.**  `group_plots(plots)` through `MapGroup(ToCSV, MakeFilename,
+Write)`, `MakeFilename`, `RenderLaTeX`, `Write`, `LaTeXToPDF`, `PDFToPNG`, any number of members, all option
+settings: a run that starts `SourceClosed` yields one value naming the combined image and leaves the members'
+CSV files, the combined `.tex` file, the pdf and the image with exactly the content produced from the current
+data and template; no other file is touched and the invariant holds again. -/
+theorem group_fresh_partial (conv : Conv C) (hok : ConvOK conv) (r : RunSpec) (mems : List (Plot × (OutCtx × String)))
+    (u : FUnit) (w : World C) (hr : GroupOK r mems u) (hclk : ClockInv w) (hinv : UnitInv conv u w.fs)
+    (hsc : SourceClosed u w.fs) :
+    ∃ w' v, runSpec conv w r = .ok (w', [v]) ∧ v.data = .path u.png ∧
+      UnitFresh conv u w'.fs (mems.map fun x => effective r.cfg.w1 (w.fs x.2.2) (conv.csvOf x.1.data))
+        (effective r.cfg.w2 (w.fs u.tex) (conv.texOf r.tpl u.csvs)) ∧
+      (∀ q, q ∉ u.paths → w'.fs q = w.fs q) ∧ ClockInv w' ∧ UnitInv conv u w'.fs := by
+  obtain ⟨hl, hp, hne, ⟨ms, gms, hms, hgms, hmem, hgt⟩, hcsvs, hpdf, hpng, hnd, hd⟩ := hr
+  -- bookkeeping level
+  have hu' : u.csvs = (mems.map fun x => (x.2.2, conv.csvOf x.1.data)).map (·.1) := by
+    rw [hcsvs, List.map_map]; rfl
+  obtain ⟨w', c, hg, hfresh, hframe, hck, _, hinv'⟩ :=
+    grpCore_fresh conv r.cfg.w1 r.cfg.w2 r.cfg.lo r.cfg.po u (mems.map fun x => (x.2.2, conv.csvOf x.1.data))
+      (conv.texOf r.tpl u.csvs) w hu' hnd hd hclk hinv hsc (hok _ _)
+  rw [List.map_map] at hfresh
+  -- the pipeline
+  have hpne : mems.map (·.1) ≠ [] := by simpa using hne
+  unfold grpCore at hg
+  simp only at hg
+  obtain ⟨n1, n2, n3, n4⟩ := memberVals_outs (C := C) mems
+    (membersCore r.cfg.w1 w (mems.map fun x => (x.2.2, conv.csvOf x.1.data))).2
+    (by rw [membersCore_length]; simp)
+  have hfields : ∀ x ∈ mems, x.2.1.filetype = some "csv" ∧ x.2.1.filepath = some x.2.2 :=
+    fun x hx => memberNamed_fields (hmem x hx)
+  -- the group's tex name
+  cases hgt' : wmfCore r.cfg.outdir "output"
+      (mfCall r.cfg.gmf.overwrite gms (allEq (mems.map (·.1.name)))
+        (nm (updateWithGroup { changed := some false } (mems.map (·.2.1)) {}))).1.dirname
+      (mfCall r.cfg.gmf.overwrite gms (allEq (mems.map (·.1.name)))
+        (nm (updateWithGroup { changed := some false } (mems.map (·.2.1)) {}))).1.filename (some "tex") (some "tex") with
+  | error e => simp [groupTexPath, hgt'] at hgt
+  | ok rt =>
+    obtain ⟨d, fn, fe, pt⟩ := rt
+    simp only [groupTexPath, hgt', Except.ok.injEq] at hgt
+    subst hgt
+    -- unfold the pipeline down to tailStage
+    let w1 := (membersCore r.cfg.w1 w (mems.map fun x => (x.2.2, conv.csvOf x.1.data))).1
+    let flags := (membersCore r.cfg.w1 w (mems.map fun x => (x.2.2, conv.csvOf x.1.data))).2
+    let vs : List (Val C) := memberVals mems flags
+    let newOuts := vs.map (·.out)
+    let gv : Val C := { data := .many (vs.map dataPath), name := allEq (mems.map (·.1.name)),
+                        out := updateWithGroup { changed := some false } newOuts {}, group := some newOuts }
+    have hrun : runSpec conv w r = match tailStage conv r.cfg r.tpl w1 (mfVal r.cfg.gmf.overwrite gms gv) with
+        | .error e => .error e
+        | .ok (w2, ov) => .ok (w2, ov.toList) := by
+      unfold runSpec runGroup
+      rw [hl]
+      simp only [hms, hgms, hp]
+      rw [if_neg (by simpa using hne)]
+      rw [runMembers_eq conv r.cfg ms mems w hmem]
+      simp only
+      rw [groupPlotsOut_defaults _ hpne, interOut_defaults _ hpne, List.map_map]
+      rfl
+    -- hypotheses of tailStage_eq_downCore
+    have hnm : newOuts.map nm = (mems.map (·.2.1)).map nm := n1
+    have hgvout : nm (mfVal r.cfg.gmf.overwrite gms gv).out
+        = (mfCall r.cfg.gmf.overwrite gms (allEq (mems.map (·.1.name)))
+            (nm (updateWithGroup { changed := some false } (mems.map (·.2.1)) {}))).1 := by
+      show nm (mfCall _ _ _ _).1 = _
+      rw [mfCall_nm, updateWithGroup_nm _ _ _ _ hnm]
+    have hft : (mfVal r.cfg.gmf.overwrite gms gv).out.filetype = some "csv" := by
+      show (mfCall _ _ _ _).1.filetype = _
+      rw [mfCall_filetype]
+      show (updateWithGroup _ newOuts _).filetype = _
+      have hall : allEq (newOuts.map (·.filetype)) = some "csv" := by
+        apply allEq_const
+        · intro h0
+          have : (newOuts.map nm).length = 0 := by rw [List.length_map, List.map_eq_nil_iff.mp h0]; rfl
+          rw [hnm] at this
+          simp at this
+          exact hne this
+        · intro x hx
+          obtain ⟨o, ho, rfl⟩ := List.mem_map.mp hx
+          have : (nm o).filetype = some "csv" := by
+            have hmem' : nm o ∈ (mems.map (·.2.1)).map nm := by rw [← hnm]; exact List.mem_map_of_mem ho
+            obtain ⟨o', ho', he⟩ := List.mem_map.mp hmem'
+            obtain ⟨x', hx', rfl⟩ := List.mem_map.mp ho'
+            rw [← he]; exact (hfields x' hx').1
+          exact this
+      unfold updateWithGroup
+      simp only [updOut, diffOut, interOut, hall]
+      cases combineChanged (some false) (newOuts.map (·.changed)) <;> rfl
+    have hdeps : (match (mfVal r.cfg.gmf.overwrite gms gv).group with
+              | none => (mfVal r.cfg.gmf.overwrite gms gv).out.filepath.toList
+              | some g => g.filterMap (·.filepath)) = u.csvs := by
+      show newOuts.filterMap (·.filepath) = u.csvs
+      rw [n3, hcsvs]
+      exact filterMap_filepath mems (fun x hx => (hfields x hx).2)
+    have hn : wmfCore r.cfg.outdir "output" (mfVal r.cfg.gmf.overwrite gms gv).out.dirname
+        (mfVal r.cfg.gmf.overwrite gms gv).out.filename (some "tex") (some "tex") = .ok (d, fn, fe, u.tex) := by
+      have e1 : (mfVal r.cfg.gmf.overwrite gms gv).out.dirname = (nm (mfVal r.cfg.gmf.overwrite gms gv).out).dirname := rfl
+      have e2 : (mfVal r.cfg.gmf.overwrite gms gv).out.filename = (nm (mfVal r.cfg.gmf.overwrite gms gv).out).filename := rfl
+      rw [e1, e2, hgvout]; exact hgt'
+    have hchg : (mfVal r.cfg.gmf.overwrite gms gv).out.changed = some (flags.any (· == some true)) := by
+      show (mfCall _ _ _ _).1.changed = _
+      rw [mfCall_changed]
+      show (updateWithGroup _ newOuts _).changed = _
+      rw [group_changed_after_mapgroup newOuts {} rfl]
+      have : flags = newOuts.map (·.changed) := n2.symm
+      rw [this]
+      simp only [List.any_map, Function.comp_def]
+    obtain ⟨ov, ht, _, hv⟩ := tailStage_eq_downCore conv r.cfg r.tpl w1 (mfVal r.cfg.gmf.overwrite gms gv) u.csvs
+      d fn fe u.tex hft hdeps hn u rfl hpdf hpng w' (some c) (by rw [hchg]; exact hg)
+    obtain ⟨v, hov, hdata, _, _⟩ := hv c rfl
+    subst hov
+    exact ⟨w', v, by rw [hrun, ht]; rfl, hdata, hfresh, hframe, hck, hinv'⟩
+
+
+/-! ## the hypotheses are satisfiable: concrete non-trivial instances -/
+
+section Examples
+
+/-- the world after a first run of the standard pipeline (all four files of `p0` exist) -/
+def Witness.after1 : World Content := exec stubConv World.init [.run (Witness.run 1)]
+
+theorem Witness.after1_inv : WInv stubConv [(Witness.unit, "out/p0.csv")] Witness.after1 :=
+  WInv.exec stubConv_ok _ _
+    ⟨fun p f hp => by simp [World.init, FS.empty] at hp, fun up _ => UnitInv.empty _ _⟩
+    ⟨⟨_, witness_runOK 1, rfl⟩, fun up _ h => by simp [World.init, FS.empty] at h, trivial⟩
+
+theorem Witness.after1_closed : SourceClosed Witness.unit Witness.after1.fs := by
+  unfold SourceClosed; decide +kernel
+
+/-- `run_fresh_partial` on a non-trivial state: all files of the plot exist, the data changes from 1 to 2; the
+theorem's hypotheses hold and it yields that the pdf is rendered from data 2 -/
+example : ∃ w' vs, runSpec stubConv Witness.after1 (Witness.run 2) = .ok (w', vs) ∧
+    HasContent w'.fs "out/p0.pdf" (.pdf (.tex 1 ["out/p0.csv"]) (.cons (.csv 2) .nil)) := by
+  obtain ⟨w', vs, hr, _, hf, _⟩ := run_fresh_partial stubConv stubConv_ok (Witness.run 2) _ Witness.after1
+    (witness_runOK 2) Witness.after1_inv
+    (fun up hup => by simp only [List.map_cons, List.map_nil, List.mem_singleton] at hup; subst hup; exact Witness.after1_closed)
+  obtain ⟨_, _, hpdf, _⟩ := hf _ (List.mem_singleton.mpr rfl)
+  refine ⟨w', vs, hr, ?_⟩
+  simpa [effective_normal, Witness.run, Witness.cfg, Witness.unit, stubConv, Content.ofList] using hpdf
+
+/-- `history_fresh_partial` on a history with deletions that keep `SourceClosed`: run, remove the CSV file
+*together with* the pdf (and the image), run with other data -/
+example : FreshHist stubConv (World.init : World Content)
+    [.run (Witness.run 1), .del ["out/p0.csv", "out/p0.pdf", "out/p0.png"], .run (Witness.run 2)] :=
+  history_fresh_partial stubConv stubConv_ok [(Witness.unit, "out/p0.csv")] _ _
+    ⟨fun p f hp => by simp [World.init, FS.empty] at hp, fun up _ => UnitInv.empty _ _⟩
+    ⟨⟨_, witness_runOK 1, rfl⟩, fun up _ h => by simp [World.init, FS.empty] at h,
+     ⟨_, witness_runOK 2, rfl⟩,
+     fun up hup => by
+       simp only [List.mem_singleton] at hup; subst hup
+       unfold SourceClosed; decide +kernel,
+     trivial⟩
+
+/-- `idle_run_is_noop` on the same state: the second identical run changes nothing -/
+example : ∃ w' vs vs', runSpec stubConv Witness.after1 (Witness.run 2) = .ok (w', vs) ∧
+    runSpec stubConv w' (Witness.run 2) = .ok (w', vs') :=
+  let ⟨w', vs, vs', h1, h2, _⟩ := idle_run_is_noop stubConv stubConv_ok (Witness.run 2) _ Witness.after1
+    (witness_runOK 2) Witness.after1_inv
+    (fun up hup => by simp only [List.map_cons, List.map_nil, List.mem_singleton] at hup; subst hup; exact Witness.after1_closed)
+    (by decide) (by decide) rfl rfl
+  ⟨w', vs, vs', h1, h2⟩
+
+/-- a group of two plots: the names resolve (`GroupOK`), so `group_fresh_partial` applies to the empty world -/
+def Witness.grun : RunSpec :=
+  { cfg := Witness.cfg, layout := .group, tpl := 1, plots := [⟨some "p0", 1⟩, ⟨some "p1", 2⟩] }
+
+def Witness.gunit : FUnit :=
+  ⟨["out/p0.csv", "out/p1.csv"], "out/combined.tex", "out/combined.pdf", "out/combined.png"⟩
+
+def Witness.gmems : List (Plot × (OutCtx × String)) :=
+  [(⟨some "p0", 1⟩, ({ filename := some "p0", fileext := some "csv", filetype := some "csv",
+                       filepath := some "out/p0.csv" }, "out/p0.csv")),
+   (⟨some "p1", 2⟩, ({ filename := some "p1", fileext := some "csv", filetype := some "csv",
+                       filepath := some "out/p1.csv" }, "out/p1.csv"))]
+
+theorem Witness.groupOK : GroupOK Witness.grun Witness.gmems Witness.gunit where
+  layout := rfl
+  plots := rfl
+  nonempty := by simp [Witness.gmems]
+  resolves := ⟨Witness.ms, [(.filename, [.lit "combined"])], witness_mfInit, by decide +kernel, by
+    intro x hx
+    simp only [Witness.gmems, List.mem_cons, List.mem_singleton, List.not_mem_nil, or_false] at hx
+    rcases hx with rfl | rfl <;> decide +kernel, by decide +kernel⟩
+  csvs := rfl
+  pdf := by decide +kernel
+  png := by decide +kernel
+  nodup := by decide +kernel
+  distinct := by unfold FUnit.Distinct Witness.gunit; decide +kernel
+
+example : ∃ w' v, runSpec stubConv (World.init : World Content) Witness.grun = .ok (w', [v]) ∧
+    v.data = .path "out/combined.png" ∧
+    HasContent w'.fs "out/combined.pdf"
+      (.pdf (.tex 1 ["out/p0.csv", "out/p1.csv"]) (.cons (.csv 1) (.cons (.csv 2) .nil))) := by
+  obtain ⟨w', v, hr, hd, hf, _⟩ := group_fresh_partial stubConv stubConv_ok Witness.grun Witness.gmems Witness.gunit
+    World.init Witness.groupOK (fun p f hp => by simp [World.init, FS.empty] at hp) (UnitInv.empty _ _)
+    (fun h => by simp [World.init, FS.empty] at h)
+  obtain ⟨_, _, hpdf, _⟩ := hf
+  refine ⟨w', v, hr, hd, ?_⟩
+  simpa [effective_normal, Witness.grun, Witness.cfg, Witness.gmems, Witness.gunit, stubConv, Content.ofList,
+    World.init, FS.empty, effective] using hpdf
+
+end Examples
 
 end Lena.C19
